@@ -9,6 +9,7 @@ import (
 	"time"
 
 	"github.com/mdlayher/corerad/internal/plugin"
+	"github.com/mdlayher/corerad/internal/system"
 	"github.com/mdlayher/corerad/internal/verifh"
 	"github.com/mdlayher/ndp"
 )
@@ -41,7 +42,7 @@ func TestVerifC16(t *testing.T) {
 			valid = 1 + r.Int63n(48*3600e9)
 		}
 		switch {
-		case r.Chance(20):
+		case r.Chance(35):
 			pref = valid
 		case r.Chance(50):
 			pref = 1 + r.Int63n(valid)
@@ -82,13 +83,27 @@ func TestVerifC16(t *testing.T) {
 			verifh.Shuffle(r, nows)
 		}
 
+		// The clock either stands still during one Apply or advances by `tick` on every reading: all lifetimes of
+		// one RA must describe a single instant (the first reading).
 		var now time.Time
-		clock := func() time.Time { return now }
+		var reads int64
+		tick := int64(0)
+		if r.Chance(35) {
+			tick = verifh.Pick(r, []int64{1, 1e6, 1e9, 7e9})
+		}
+		clock := func() time.Time { reads++; return now.Add(time.Duration((reads - 1) * tick)) }
+		wildcard := r.Chance(30) // the ::/64 / ::/0 wildcard forms take the same countdown
 		var apply func() (int64, int64)
 		if route {
 			p := &plugin.Route{
 				Prefix: netip.MustParsePrefix("2001:db8::/32"), Preference: ndp.Medium,
 				Lifetime: time.Duration(valid), Deprecated: dep, Epoch: time.Unix(0, epoch), TimeNow: clock,
+			}
+			if wildcard {
+				p.Auto, p.Prefix = true, netip.MustParsePrefix("::/0")
+				p.Routes = func() ([]system.Route, error) {
+					return []system.Route{{Prefix: netip.MustParsePrefix("2001:db8:7::/48")}}, nil
+				}
 			}
 			apply = func() (int64, int64) {
 				ra := &ndp.RouterAdvertisement{}
@@ -103,6 +118,12 @@ func TestVerifC16(t *testing.T) {
 				ValidLifetime: time.Duration(valid), PreferredLifetime: time.Duration(pref),
 				Deprecated: dep, Epoch: time.Unix(0, epoch), TimeNow: clock,
 			}
+			if wildcard {
+				p.Auto, p.Prefix = true, netip.MustParsePrefix("::/64")
+				p.Addrs = func() ([]system.IP, error) {
+					return []system.IP{{Address: netip.MustParsePrefix("2001:db8:7::1/64")}}, nil
+				}
+			}
 			apply = func() (int64, int64) {
 				ra := &ndp.RouterAdvertisement{}
 				if err := p.Apply(ra); err != nil || len(ra.Options) != 1 {
@@ -116,7 +137,7 @@ func TestVerifC16(t *testing.T) {
 		var obs []string
 		var obsJ [][3]int64
 		for _, tn := range nows {
-			now = time.Unix(0, tn)
+			now, reads = time.Unix(0, tn), 0
 			v, p := apply()
 			obs = append(obs, verifh.Pair(verifh.Z(tn), verifh.Pair(verifh.Z(v), verifh.Z(p))))
 			obsJ = append(obsJ, [3]int64{tn, v, p})
@@ -125,6 +146,7 @@ func TestVerifC16(t *testing.T) {
 		if route {
 			tags[0] = "kind:route"
 		}
+		tags = append(tags, fmt.Sprintf("wildcard:%v", wildcard), fmt.Sprintf("clock-ticks-within-apply:%v", tick > 0))
 		if sorted {
 			tags = append(tags, "clock:nondecreasing")
 		} else {
